@@ -137,6 +137,9 @@ theorem containment_sound (v : Nat) (pMin pMax : Rat) (nodes : List (Nat × Rat)
     simp only [Holds, Bool.false_eq_true, if_false] at h1 h2
     constructor <;> linarith
 
+example : AllHold (containmentSeps 2 1 1 [(0, 1)] []) (fun i => if i = 0 then 5 else if i = 2 then 0 else 10) := by
+  intro c hc; simp [containmentSeps] at hc; rcases hc with rfl | rfl <;> simp [Holds] <;> norm_num
+
 /-- with non-negative padding, a contained node's interval lies inside the cluster's box -/
 theorem containment_within (v : Nat) (pMin pMax : Rat) (nodes : List (Nat × Rat)) (children : List (Nat × Rat × Rat))
     (a : Asg) (hp0 : 0 ≤ pMin) (hp1 : 0 ≤ pMax) (h : AllHold (containmentSeps v pMin pMax nodes children) a) :
